@@ -98,7 +98,29 @@ fn attrs_of(e: &BytesStart, decoder: quick_xml::encoding::Decoder) -> Result<Vec
         let a = a.map_err(|err| format!("attribute error {:?} in {:?}", err, lossy(e)))?;
         v.push((utf8(a.key.as_ref())?, a.decode_and_unescape_value(decoder).map_err(|e| format!("{:?}", e))?.into_owned()));
     }
+    distinct_keys_pass_the_duplicate_check(e, &v)?;
     Ok(v)
+}
+
+/// When all keys are pairwise different byte strings, the default iterator (duplicate check on)
+/// must yield the same attributes without an error.
+fn distinct_keys_pass_the_duplicate_check(e: &BytesStart, seen: &[(String, String)]) -> Result<(), String> {
+    let distinct = (0..seen.len()).all(|i| (0..i).all(|j| seen[i].0 != seen[j].0));
+    if !distinct {
+        return Ok(());
+    }
+    let mut n = 0;
+    for a in e.attributes() {
+        let a = a.map_err(|err| format!("attributes() with the duplicate check on yields {:?} on {:?} although all keys differ", err, lossy(e)))?;
+        if seen.get(n).map(|s| s.0.as_bytes()) != Some(a.key.as_ref()) {
+            return Err(format!("attributes() with the duplicate check on yields key {:?} at #{} on {:?}", lossy(a.key.as_ref()), n, lossy(e)));
+        }
+        n += 1;
+    }
+    if n != seen.len() {
+        return Err(format!("attributes() with the duplicate check on yields {} attributes, {} without it, on {:?}", n, seen.len(), lossy(e)));
+    }
+    Ok(())
 }
 
 /// Reads `bytes` back with all checks off and returns the canonical event list.
@@ -236,6 +258,7 @@ fn pool() -> Vec<Spec> {
         Spec::Empty(s("a"), vec![]),
         Spec::Empty(s("a-b.c"), vec![kv("k", ""), kv("l", "/")]),
         Spec::Empty(s("e"), vec![kv("q", "a\tb\nc"), kv("r", "&amp;")]),
+        Spec::Empty(s("e"), vec![kv("id", "1"), kv("ID", "2"), kv("x:id", "3"), kv("x:Id", "4")]),
         Spec::End(s("a")),
         Spec::End(s("p:c")),
         Spec::Text(s("")),
@@ -315,6 +338,7 @@ fn check_start(e: &BytesStart, name: &str, attrs: &[(String, String)]) -> Result
     if got != attrs {
         return Err(format!("attributes() yields {:?}, model says {:?} (content {:?})", got, attrs, lossy(e)));
     }
+    distinct_keys_pass_the_duplicate_check(e, &got)?;
     Ok(())
 }
 
@@ -475,7 +499,7 @@ fn spec_json(s: &[Spec]) -> Value {
 
 pub fn run(ctx: &Ctx) {
     ctx.set_rule(
-        "(a) every sequence of up to N event specifications from a pool of 31 (all ten event kinds, hostile payloads: quotes, <, &, ]]>, \
+        "(a) every sequence of up to N event specifications from a pool of 32 (all ten event kinds, hostile payloads: quotes, <, &, ]]>, \
          --, ?, blanks, non-ASCII) built through the public constructors, written with Writer::write_event and read back with all checks \
          off; (b) every string up to length L over {< > & ' \" ] - ? space a é} as attribute value, text, CDATA (splitting \
          constructor) and comment payload; (c) the BytesStart edit machine: every sequence of up to 5/6 operations out of set_name x3, \
